@@ -1,4 +1,4 @@
 (* Extraction of the executable model and specification of C16 (ExtrOcamlBasic only). *)
-From MptV Require Import Base.Mem C16.IdentModel C16.IdentSpec.
+From MptV Require Import Base.Mem C16.IdentModel C16.IdentSpec C16.Locate.
 Require Import ExtrOcamlBasic.
-Extraction "c16_model.ml" mrun_end srun absw init_world new_size ident_init.
+Extraction "c16_model.ml" mrun_end srun absw init_world new_size ident_init locate locate_spec LFwd LLast LBwd.
